@@ -210,6 +210,18 @@ CLAIMED = {
         note='F8 repaired in /repo (c86e180 lifted PolyDomain crash, cfea74b NaN passes the filter).',
         technique='Lean 4 proof (filter / stable-sort model over float-like values) + model/implementation correspondence check with recorded candidates',
         design_ref='DESIGN.md 4/C17'),
+    'C15': dict(
+        text='PARTIAL (the compiled form of the generated constraints is C07\'s subject; emptiness detection relies on the solver). Theorems '
+             'about a Lean model of valid_posynomial_inequalities / valid_monomial_equations / valid_gp_representable_poly_* / '
+             'clcons_from_standard_gprep / infer_domain and of the column reordering in parse_coniclifts_constraints: normalisation keeps '
+             'the set, the generated log-space constraints describe exactly the kept constraints, every point satisfying all of gts and eqs '
+             'lies in the inferred set (polynomials: in log|x|, every orthant), the reordered matrix applied to (x, aux) is the compiled row. '
+             'The real infer_domain (kept constraints, every generated coniclifts constraint with its data) and the real SigDomain / PolyDomain '
+             'parsing (A, b, K) are compared with the model; random points are audited: constraints vs X.gts/X.eqs vs check_membership vs '
+             'conic data with the first n columns as x; suppfunc on boxes; emptiness at construction.',
+        note='F14 (degenerate constraints raise IndexError) is modelled as raising: it does not produce a wrong set.',
+        technique='Lean 4 proof (real analysis of posynomial normalisation, log-space forms, column reordering) + model/implementation correspondence check',
+        design_ref='DESIGN.md 4/C15'),
 }
 
 NOT_YET = 'check not built yet in this session (planned, see DESIGN.md section 6); not claimed until its theorems and correspondence exist'
